@@ -276,6 +276,7 @@ fn expected(builds: &[Build]) -> Vec<Expect> {
                 decls.push((bi, (version.clone(), encoding.clone(), standalone.clone())));
             }
             Build::DocType(s) => push(Event::DocType(BytesText::from_escaped(s.clone())), None, None),
+            Build::Eof => {}
             Build::Builder { name, attrs, content } => {
                 let mut e = BytesStart::new(name.clone());
                 for (k, v) in attrs {
@@ -335,6 +336,7 @@ fn emit_sync(builds: &[Build], w: &mut Writer<Vec<u8>>) -> io::Result<()> {
                 w.write_event(Event::Decl(BytesDecl::new(version, encoding.as_deref(), standalone.as_deref())))?
             }
             Build::DocType(s) => w.write_event(Event::DocType(BytesText::from_escaped(s.as_str())))?,
+            Build::Eof => w.write_event(Event::Eof)?,
             Build::Builder { name, attrs, content } => {
                 let mut ew = w.create_element(name.as_str());
                 for (k, v) in attrs {
@@ -384,6 +386,7 @@ async fn emit_async(builds: &[Build], w: &mut Writer<PipeWriter>) -> quick_xml::
                 w.write_event_async(Event::Decl(BytesDecl::new(version, encoding.as_deref(), standalone.as_deref()))).await?
             }
             Build::DocType(s) => w.write_event_async(Event::DocType(BytesText::from_escaped(s.as_str()))).await?,
+            Build::Eof => w.write_event_async(Event::Eof).await?,
             Build::Builder { name, attrs, content } => {
                 let mut ew = w.create_element(name.as_str());
                 for (k, v) in attrs {
@@ -471,6 +474,9 @@ fn balanced_angles(s: &str) -> bool {
 }
 
 fn gen_build(rng: &mut Rng, open: &mut Vec<String>) -> Build {
+    if rng.chance(1, 40) {
+        return Build::Eof;
+    }
     match rng.below(16) {
         0..=3 => {
             let name = rng.pick(P_NAMES).to_string();
